@@ -206,6 +206,22 @@ func (db *DB) Backup(dir string) error {
 			}
 		}
 	}
+	// 目标目录可能保存着上一次备份: 其中已不存在于数据目录的数据文件 (例如之后被 merge 回收的文件) 必须删除,
+	// 否则打开备份时这些残留文件中的旧记录会覆盖新数据
+	if entries, err := os.ReadDir(dir); err == nil {
+		for _, entry := range entries {
+			name := entry.Name()
+			if entry.IsDir() || !(strings.HasSuffix(name, datafile.DataFileSuffix) ||
+				strings.HasSuffix(name, datafile.HintFileSuffix) || strings.HasSuffix(name, datafile.MergeFinishedFileSuffix)) {
+				continue
+			}
+			if _, err := os.Stat(filepath.Join(db.options.DirPath, name)); os.IsNotExist(err) {
+				if err := os.Remove(filepath.Join(dir, name)); err != nil {
+					return err
+				}
+			}
+		}
+	}
 	// 将数据目录中的数据文件拷贝到指定目录中
 	return utils.CopyDir(db.options.DirPath, dir, []string{datafile.FileLockSuffix})
 }
